@@ -42,12 +42,20 @@ def main() -> int:
     if in_place:
         # run the demonstration where it was written: the sub-agent's worktree, with its change stashed and then restored
         env_src = dict(os.environ, PYTHONPATH=str(src / "src"))
-        st = sh(["git", "-C", str(src), "stash"])
-        try:
-            r0 = sh([PY, str(demo)], env=env_src, cwd=str(src), timeout=900)
-        finally:
-            if "No local changes" not in st.stdout:
-                sh(["git", "-C", str(src), "stash", "pop"])
+        if "--reverse-apply" in sys.argv:
+            # for patches that add files (git stash would leave them behind)
+            sh(["git", "-C", str(src), "apply", "-R", str(src / "patch.diff")])
+            try:
+                r0 = sh([PY, str(demo)], env=env_src, cwd=str(src), timeout=900)
+            finally:
+                sh(["git", "-C", str(src), "apply", str(src / "patch.diff")])
+        else:
+            st = sh(["git", "-C", str(src), "stash"])
+            try:
+                r0 = sh([PY, str(demo)], env=env_src, cwd=str(src), timeout=900)
+            finally:
+                if "No local changes" not in st.stdout:
+                    sh(["git", "-C", str(src), "stash", "pop"])
         r1 = sh([PY, str(demo)], env=env_src, cwd=str(src), timeout=900)
         record["demo_run_in"] = str(src)
     else:
